@@ -46,13 +46,13 @@ WORLDS.setdefault("W-label", W_LABEL)
 
 CFG = {
     "mix": {"values": (3,), "index_values": (1,),
-            "templates": ("mul2", "add", "neg", "abs", "round1", "floor", "pick", "total", "dyn", "lt", "rpow"),
+            "templates": ("mul2", "add", "neg", "abs", "round1", "floor", "pick", "total", "dyn", "lt", "rpow", "constcall"),
             "iops": (("sub", ("lit", 1)),), "unreg": True},
-    "nest": {"values": (3,), "templates": ("mul2", "add", "sub", "round1"), "iops": (("add", ("lit", 1)),), "unreg": True},
+    "nest": {"values": (3,), "templates": ("mul2", "add", "sub", "round1", "constcall"), "iops": (("add", ("lit", 1)),), "unreg": True},
     "label": {"values": (3,), "templates": ("mul2", "add", "floor", "rpow"), "iops": (("mul", ("src",)),), "unreg": True},
     # few locations, deeper: operations that are queries on the explored manager (export = another manager copies from it)
     # interleaved with definitions being added, replaced by values and removed
-    "tiny": {"values": (3,), "templates": ("mul2",), "unreg": True, "leaves_n": 3},
+    "tiny": {"values": (3,), "templates": ("mul2", "constcall"), "unreg": True, "leaves_n": 3},
 }
 
 
@@ -328,7 +328,7 @@ class System(ManagerSystem):
 
 # ---------------------------------------------------------------------- (E) term level
 KEYS = ["a", "s", "f", "s_a", "a.b", "a']['b", "s['a']", "x y", "é", 0, 1, -1, 10]
-CONSTS = [0, 1, -1, 2, 7, -3, 0.5, -2.5, 1e10, 1e-7, -1e-3, 123456789, 2.0]
+CONSTS = [0, 1, -1, 2, 7, -3, 0.5, -2.5, 1e10, 1e-7, -1e-3, 123456789, 2.0, -0.0, 0.0]
 
 
 def term_world():
